@@ -205,6 +205,11 @@ def run_check(cid, tier="quick", seed=0, replay_path=None, nshards=None, quiet=F
     tmp = tempfile.mkdtemp(prefix="nslverif_")
     env = bootstrap.worker_env()
     env["VERIF_TIER"] = tier
+    # every scratch directory a shard (or a tool it starts) makes lives below this run's directory, which is removed
+    # below even when a shard had to be killed by the watchdog
+    scratch = os.path.join(tmp, "scratch")
+    os.makedirs(scratch, exist_ok=True)
+    env["TMPDIR"] = scratch
     timeout = getattr(mod, "SHARD_TIMEOUT", {"quick": 600, "thorough": 5400})[tier]
     procs = []
     try:
